@@ -137,6 +137,7 @@ func genProg(r *rng, o *out, do func(string) string) {
 	shape := []string{}
 	removed := map[string]bool{}
 	grpTags := []int{453, 78, 555}
+	forked := false
 	for i := 0; i < n; i++ {
 		sec := pickSec(r)
 		tag := secTag(r, sec)
@@ -175,15 +176,23 @@ func genProg(r *rng, o *out, do func(string) string) {
 				shape = append(shape, "set-over-group")
 				o.kind("prog.set-over-group")
 			}
-		case c < 70:
+		case c < 68:
 			do("copy")
 			shape = append(shape, "copy")
+		case c < 70: // a copy kept aside while the source goes on being edited
+			do("fork")
+			forked = true
+			shape = append(shape, "fork")
+			o.kind("prog.fork")
 		case c < 78:
 			do("build")
 			shape = append(shape, "build")
 		case c < 82:
 			do("copybuild")
 			shape = append(shape, "copybuild")
+			if forked {
+				do("sidebuild")
+			}
 		case c < 90:
 			do(fmt.Sprintf("%s %s %d", r.pick([]string{"has", "get", "geti"}), sec, tag))
 		case c < 94:
@@ -200,6 +209,9 @@ func genProg(r *rng, o *out, do func(string) string) {
 	}
 	do("build")
 	do("copybuild")
+	if forked {
+		do("sidebuild")
+	}
 	res := do("reparse n")
 	o.kind("prog.reparse." + strings.Fields(res)[0])
 	for k := 0; k < 3; k++ {
